@@ -134,8 +134,10 @@ fn check_iteration(acc: &mut Acc, rank: u64, input: &[u8], po: &PO, reader: bool
                 prev = off;
             }
         }
-        // agreement up to and including the first error item
-        let upto = items.iter().position(|i| matches!(i, Item::Err(_))).map(|p| p + 1).unwrap_or(items.len());
+        // agreement over the whole run, also after error items (a caller that goes on after an
+        // error sees the same sequence whichever way it iterates); errors compare by category
+        // and message, locations included
+        let upto = items.len();
         let head: Vec<Item> = items[..upto].to_vec();
         match &first {
             None => first = Some(head),
